@@ -89,6 +89,16 @@ pub struct Probes {
     pub params_file_checks: u64,
     pub skipped_unsafe_config: u64,
     pub days_computed: u64,
+    #[serde(default)]
+    pub extra_files_seen: u64,
+    #[serde(default)]
+    pub params_file_differs_from_flags: u64,
+    #[serde(default)]
+    pub expectation_unknown: u64,
+    #[serde(default)]
+    pub reload_identity_checks: u64,
+    #[serde(default)]
+    pub verification_reloads: u64,
 }
 
 #[derive(Serialize, Deserialize, Clone, Debug, Default, PartialEq)]
@@ -388,6 +398,9 @@ fn summarise_ops(events: &[String], step: &Step) -> BTreeMap<String, Vec<(String
             if let Some(t) = fd_target.get(toks[1]) {
                 idxs.entry((t.clone(), op.into())).or_default().push(n);
             }
+        } else if let Some(n) = toks[0].strip_prefix("meta#") {
+            let n: i64 = n.parse().unwrap_or(-1);
+            idxs.entry(("meta".into(), "meta".into())).or_default().push(n);
         } else if toks[0] == "close" {
             if toks.len() > 1 && toks[1] != "fd1" {
                 fd_target.remove(toks[1]);
@@ -405,9 +418,9 @@ fn fired_faults(events: &[String]) -> Vec<String> {
     let mut v = Vec::new();
     for l in events {
         let b = ev_body(l);
-        if let Some((lhs, rhs)) = b.split_once(" -> ") {
+        if let Some((lhs, rhs)) = b.rsplit_once(" -> ") {
             let op = lhs.split('#').next().unwrap_or("");
-            if !(op == "open" || op == "write" || op == "read") {
+            if !(op == "open" || op == "write" || op == "read" || op == "meta") {
                 continue;
             }
             let r = rhs.split_whitespace().next().unwrap_or("");
@@ -524,6 +537,8 @@ pub fn run_pass(ctx: &Ctx, sc: &Scenario, inject: bool) -> PassResult {
     let mut all_viol: Vec<Violation> = Vec::new();
     let mut prev_clock: Option<i64> = None;
     let mut disk_fault_on: HashMap<String, String> = HashMap::new();
+    // parameter file name -> (hash of its bytes, step that wrote it, sink is a file, that step's output)
+    let mut written: HashMap<String, (u64, usize, bool, Vec<u8>)> = HashMap::new();
 
     'steps: for (k, step0) in sc.steps.iter().enumerate() {
         let mut step = step0.clone();
@@ -702,8 +717,11 @@ pub fn run_pass(ctx: &Ctx, sc: &Scenario, inject: bool) -> PassResult {
         if let Some(p) = &step.save_params {
             may_touch.push(p.clone()); // with -i the tool ignores -p; either behaviour is accepted
         }
+        // only the scenario's own artefacts (names passed as -p / -o / -i by some step) are protected;
+        // stray files (a temporary file left by a crashed atomic save) are nobody's promise
+        let artefacts: Vec<&String> = sc.steps.iter().flat_map(|s| [s.save_params.as_ref(), s.output.as_ref(), s.input.as_ref()]).flatten().collect();
         for (name, b) in &before {
-            if may_touch.contains(name) {
+            if may_touch.contains(name) || !artefacts.contains(&name) {
                 continue;
             }
             match after.get(name) {
@@ -714,7 +732,9 @@ pub fn run_pass(ctx: &Ctx, sc: &Scenario, inject: bool) -> PassResult {
         }
         for name in after.keys() {
             if !before.contains_key(name) && !may_touch.contains(name) {
-                viol!("O7-clobbered", format!("unexpected file {name} created"));
+                // e.g. the temporary file of an atomic save left behind by a crash: the property
+                // says nothing about it, so it is only counted
+                res.probes.extra_files_seen += 1;
             }
         }
 
@@ -800,6 +820,17 @@ pub fn run_pass(ctx: &Ctx, sc: &Scenario, inject: bool) -> PassResult {
 
         if !ok0 {
             // failure is acceptable after a fault, or where the library itself panics
+            if step.kind == "B" && rec.fired.is_empty() {
+                if let Some(name) = &step.input {
+                    if let (Some(w), Some(pb)) = (written.get(name), before.get(name)) {
+                        if w.0 == fnv1a(pb) {
+                            viol!("O3-not-reproducible", format!("feeding back the untouched parameter file written by step {} fails (exit {:?}, signal {:?})", w.1, child.exit, child.signal));
+                            res.steps.push(rec);
+                            continue;
+                        }
+                    }
+                }
+            }
             let lib_panics = cfg.as_ref().map(|c| reference(c).is_none());
             if !rec.fired.is_empty() {
                 if transp_fired && !hard_fired && lib_panics == Some(false) {
@@ -831,24 +862,21 @@ pub fn run_pass(ctx: &Ctx, sc: &Scenario, inject: bool) -> PassResult {
             match pa {
                 Err(e) => viol!("O2-params-file", format!("exit 0 but the saved parameter file does not decode: {e}{o5}")),
                 Ok(p) => {
-                    if val(&p.location.coords.latitude) != val(&flags.lat) || val(&p.location.coords.longitude) != val(&flags.lon) || val(&p.location.gmt) != val(&flags.gmt) {
-                        viol!("O2-params-file", format!("saved location {} differs from the flags (lat {}, lon {}, gmt {})", val(&p.location), eff_inputs.lat, eff_inputs.lon, eff_inputs.gmt));
-                    }
+                    // What the file *contains* is the tool's business: the property only promises that
+                    // feeding it back reproduces the output (checked behaviourally below, O3). A decoded
+                    // content that differs from the flags is therefore only counted.
+                    let mut differs = val(&p.location.coords.latitude) != val(&flags.lat) || val(&p.location.coords.longitude) != val(&flags.lon) || val(&p.location.gmt) != val(&flags.gmt);
                     if let Some(e) = flags.elev {
-                        if val(&p.location.coords.elevation) != val(&e) {
-                            viol!("O2-params-file", format!("saved elevation {} differs from the flag {}", val(&p.location.coords.elevation), eff_inputs.elev.clone().unwrap_or_default()));
-                        }
+                        differs |= val(&p.location.coords.elevation) != val(&e);
                     }
                     if let Some(fp) = &flags.params {
-                        if val(&p.params) != val(fp) {
-                            viol!("O2-params-file", format!("saved parameters differ from the library's parameters for method {:?}", eff_inputs.method));
-                        }
+                        differs |= val(&p.params) != val(fp);
                     }
                     if let Some(s) = flags.start {
-                        let want = DateRange::from(s..=flags.end.unwrap_or(s));
-                        if p.date_range.as_ref() != Some(&want) {
-                            viol!("O2-params-file", format!("saved date range {:?} differs from the flags {want}", p.date_range));
-                        }
+                        differs |= p.date_range.as_ref() != Some(&DateRange::from(s..=flags.end.unwrap_or(s)));
+                    }
+                    if differs {
+                        res.probes.params_file_differs_from_flags += 1;
                     }
                     // key order of the first map in the file (reach probe for the hash seed)
                     if let Some(b) = after.get(step.save_params.as_deref().unwrap_or("")) {
@@ -862,15 +890,90 @@ pub fn run_pass(ctx: &Ctx, sc: &Scenario, inject: bool) -> PassResult {
                 }
             }
         }
+        // ---- the bytes this step produced
+        let sink_file = step.output.is_some();
+        let out_bytes: Option<Vec<u8>> = match &step.output {
+            Some(o) => after.get(o).cloned(),
+            None => Some(child.stdout.clone()),
+        };
+        if step.output.is_some() && out_bytes.is_none() {
+            viol!("O1-output", format!("exit 0 but the output file {} does not exist{o5}", step.output.clone().unwrap_or_default()));
+        }
+        let out_bytes = out_bytes.unwrap_or_default();
+
+        // ---- O3 (behavioural round trip): a reload of a parameter file that an exit-0 run wrote, and
+        // that nobody touched since, reproduces that run's output byte for byte
+        if step.kind == "B" {
+            if let (Some(name), true) = (&step.input, rec.fired.is_empty() || true) {
+                if let (Some(w), Some(pb)) = (written.get(name), before.get(name)) {
+                    if w.0 == fnv1a(pb) && w.2 == sink_file {
+                        res.probes.reload_identity_checks += 1;
+                        if w.3 != out_bytes {
+                            let at = w.3.iter().zip(out_bytes.iter()).position(|(a, b)| a != b).unwrap_or(w.3.len().min(out_bytes.len()));
+                            viol!("O3-not-reproducible", format!("feeding back the parameter file written by step {} does not reproduce its output (first difference at byte {at}; {} vs {} bytes){o5}", w.1, w.3.len(), out_bytes.len()));
+                        }
+                    }
+                }
+            }
+        }
+        if step.kind == "A" {
+            if let Some(name) = &step.save_params {
+                if let Some(pb) = after.get(name) {
+                    written.insert(name.clone(), (fnv1a(pb), k, sink_file, out_bytes.clone()));
+                }
+            }
+        }
+        // a verification reload of our own when the scenario does not reload this file next
+        // (fault-free pass only): other hash seed, two days later, another zone
+        if !inject && step.kind == "A" && step.save_params.is_some() {
+            let pname = step.save_params.clone().unwrap();
+            let next_reloads = sc.steps.get(k + 1).map(|n| n.kind == "B" && n.input.as_deref() == Some(pname.as_str())).unwrap_or(false);
+            if !next_reloads {
+                let hidden = Step {
+                    kind: "B".into(),
+                    bad: None,
+                    save_params: None,
+                    input: Some(pname.clone()),
+                    output: if sink_file { Some("__reload_out.json".into()) } else { None },
+                    env: crate::model::Env { hash_seed: step.env.hash_seed.wrapping_add(977), clock: step.env.clock + 2 * 86_400 + 3_600, tz: if step.env.tz == "UTC" { "Asia/Tokyo".into() } else { "UTC".into() }, cores: step.env.cores },
+                    faults: vec![],
+                    inputs: None,
+                };
+                let hargv = argv_for(sc, &hidden, &wdir);
+                let hc = run_child(ctx, &wdir, &hargv, &hidden, 100 + k);
+                res.probes.verification_reloads += 1;
+                res.probes.steps += 1;
+                let hout = if sink_file { std::fs::read(wdir.join("__reload_out.json")).unwrap_or_default() } else { hc.stdout.clone() };
+                let _ = std::fs::remove_file(wdir.join("__reload_out.json"));
+                if hc.exit != Some(0) || hc.timed_out {
+                    viol!("O3-not-reproducible", format!("feeding back the parameter file this step wrote fails (exit {:?}, signal {:?})", hc.exit, hc.signal));
+                } else if hout != out_bytes {
+                    let at = hout.iter().zip(out_bytes.iter()).position(|(a, b)| a != b).unwrap_or(hout.len().min(out_bytes.len()));
+                    viol!("O3-not-reproducible", format!("feeding back the parameter file this step wrote (two days later, other zone and hash seed) does not reproduce its output (first difference at byte {at}; {} vs {} bytes)", out_bytes.len(), hout.len()));
+                }
+            }
+        }
+
+        let cfg = match cfg {
+            Some(c) => Some(c),
+            None => {
+                // dates defaulted and not recoverable from the parameter file: take them from the output
+                // itself when it is JSON (weak but sound); otherwise the expectation is unknown
+                let pa = p_after.as_ref().and_then(|r| r.as_ref().ok());
+                let params = flags.params.clone().or_else(|| pa.map(|p| p.params.clone()));
+                let elev = flags.elev.or_else(|| pa.map(|p| p.location.coords.elevation));
+                let dates = if sink_file { serde_json::from_slice::<Times>(&out_bytes).ok().and_then(|t| Some((*t.keys().next()?, *t.keys().next_back()?))) } else { None };
+                match (params, elev, dates) {
+                    (Some(params), Some(elev), Some((a, b))) if (b - a).num_days() < 400 => Some(ParamsConfig { params, location: Location { coords: Coordinates::new(flags.lat, flags.lon, elev), gmt: flags.gmt }, date_range: Some(DateRange::from(a..=b)) }),
+                    _ => None,
+                }
+            }
+        };
         let cfg = match cfg {
             Some(c) => c,
             None => {
-                let no_range = flags.start.is_none() && matches!(&p_after, Some(Ok(p)) if p.date_range.is_none());
-                if no_range {
-                    viol!("O2-params-file", format!("the dates were defaulted to 'today' but the saved parameter file records no date range: feeding it back on another day cannot reproduce this run{o5}"));
-                } else {
-                    viol!("O2-params-file", format!("exit 0 but the configuration cannot be established (flags omitted and the saved parameter file unusable){o5}"));
-                }
+                res.probes.expectation_unknown += 1;
+                prev_clock = Some(step.env.clock);
                 res.steps.push(rec);
                 continue;
             }
@@ -885,27 +988,19 @@ pub fn run_pass(ctx: &Ctx, sc: &Scenario, inject: bool) -> PassResult {
             }
         };
         res.probes.days_computed += exp.len() as u64;
-        let sink_file = step.output.is_some();
-        let out_bytes: Vec<u8> = if let Some(o) = &step.output {
+        if step.output.is_some() {
             res.probes.output_file_checks += 1;
-            match after.get(o) {
-                None => {
-                    viol!("O1-output", format!("exit 0 but the output file {o} does not exist{o5}"));
-                    Vec::new()
-                }
-                Some(b) => {
-                    match serde_json::from_slice::<Times>(b) {
-                        Err(e) => viol!("O1-output", format!("exit 0 but the output file does not decode: {e} ({} bytes){o5}", b.len())),
-                        Ok(got) => {
-                            if got != exp {
-                                let missing = exp.keys().filter(|d| !got.contains_key(d)).count();
-                                let extra = got.keys().filter(|d| !exp.contains_key(d)).count();
-                                let diff = exp.iter().filter(|(d, v)| got.get(d).map(|g| g != *v).unwrap_or(false)).map(|(d, _)| d.to_string()).next();
-                                viol!("O1-output", format!("output file differs from the library's result: {} dates expected, {} found; {missing} missing, {extra} extra, first differing date {diff:?}{o5}", exp.len(), got.len()));
-                            }
+            if after.contains_key(step.output.as_deref().unwrap_or("")) {
+                match serde_json::from_slice::<Times>(&out_bytes) {
+                    Err(e) => viol!("O1-output", format!("exit 0 but the output file does not decode: {e} ({} bytes){o5}", out_bytes.len())),
+                    Ok(got) => {
+                        if got != exp {
+                            let missing = exp.keys().filter(|d| !got.contains_key(d)).count();
+                            let extra = got.keys().filter(|d| !exp.contains_key(d)).count();
+                            let diff = exp.iter().filter(|(d, v)| got.get(d).map(|g| g != *v).unwrap_or(false)).map(|(d, _)| d.to_string()).next();
+                            viol!("O1-output", format!("output file differs from the library's result: {} dates expected, {} found; {missing} missing, {extra} extra, first differing date {diff:?}{o5}", exp.len(), got.len()));
                         }
                     }
-                    b.clone()
                 }
             }
         } else {
@@ -913,8 +1008,7 @@ pub fn run_pass(ctx: &Ctx, sc: &Scenario, inject: bool) -> PassResult {
             if let Err(e) = check_listing(&child.stdout, &exp) {
                 viol!("O1-output", format!("terminal listing: {e}{o5}"));
             }
-            child.stdout.clone()
-        };
+        }
         // byte identity across steps that stand for the same configuration
         let key = (cfg_key(&cfg), sink_file);
         match learned.canon.get(&key) {
